@@ -115,6 +115,29 @@ def gen_case(rng, big=False):
     return {"body": body, "chunked": chunked, "stream": stream, "chunks": chunks, "prog": prog, "seg": seg}
 
 
+HUGE_SIZES = [65536, 262144, 524287, 524288, 524289, 700001, 1048577, 2100000]
+
+
+def gen_huge_case(rng, n, chunked, prog):
+    """bodies far beyond every buffer and block size of the code (oracle only: too large for the kernel-evaluated model);
+    the body contains text that looks like a request, so a parser that resumes inside it is seen at once"""
+    body = bytearray(rng.randbytes(n))
+    trap = b"\r\n\r\nPOST /smuggled HTTP/1.1\r\nHost: x\r\nContent-Length: 0\r\n\r\n"
+    for pos in (1000, n // 2, 524288, 524288 + 8192, n - len(trap) - 1):
+        if 0 <= pos and pos + len(trap) <= n:
+            body[pos:pos + len(trap)] = trap
+    body = bytes(body)
+    hdr, enc = (layout_chunked if chunked else layout_cl)(rng, body)
+    stream = b"POST /upload HTTP/1.1\r\nHost: x\r\n" + hdr + b"\r\n" + enc + NEXT_REQ
+    seg = rng.choice(["whole", "random", "small8k"])
+    if seg == "small8k":
+        k = rng.choice([1000, 4096, 8192])
+        chunks = [stream[i:i + k] for i in range(0, len(stream), k)]
+    else:
+        chunks = next(iter(lp.segmentations(rng, stream, [seg])))[1]
+    return {"body": body, "chunked": chunked, "stream": stream, "chunks": chunks, "prog": prog, "seg": seg, "huge": True}
+
+
 def check_case(case):
     """The property on the real code.  Returns a failure description or None."""
     spec = lp.make_spec()
@@ -166,11 +189,31 @@ def run(ctx):
         if i < 4:
             ctx.sample({"body_len": len(case["body"]), "chunked": case["chunked"], "chunks": [len(c) for c in case["chunks"]][:12],
                         "prog": repr(case["prog"])})
+    # huge bodies, mostly left unread: the drain of Parser.__next__ must still end exactly behind the body
+    nh = 0
+    for n_body in (HUGE_SIZES if not quick else ctx.rng.sample(HUGE_SIZES[:3], 1) + HUGE_SIZES[3:7]):
+        for chunked in (False, True):
+            for prog in ([], [("read", 10)], [("readline", None), ("read", 70000)]):
+                if quick and ctx.rng.random() < 0.5:
+                    continue
+                case = gen_huge_case(ctx.rng, n_body, chunked, prog)
+                f = check_case(case)
+                nh += 1
+                ctx.count_case(("huge", n_body, chunked, repr(prog), case["seg"]), True)
+                ctx.hist("body_size", ">=64KiB")
+                ctx.hist("framing", "chunked" if chunked else "content-length")
+                if f:
+                    fails.append((case, f))
+    ctx.log("%d huge-body cases (64 KiB - 2 MiB, mostly unread) on the real parser" % nh)
     ctx.cov["rule"] = ("(body, framing, chunk layout, segmentation, program of 0-12 calls) tuples; sizes from {None,-1,0,1,2,3,10,1023,1024,1025,"
                        "2047,2048,2049,8191,8192,8193,1e5,|body|,|body|+-1}; bodies with newlines around the 1024-byte refill boundaries; "
-                       "each followed by a pipelined request; non-trivial = non-empty body and at least one call; distinct by (stream, cuts, program)")
+                       "each followed by a pipelined request; plus bodies of 64 KiB - 2 MiB left (mostly) unread, oracle only; non-trivial = non-empty body and at least one call; distinct by (stream, cuts, program)")
     ctx.log("%d tuples on the real Body vs io.BytesIO: %d failures" % (n, len(fails)))
     for case, f in fails[:3]:
+        if case.get("huge"):
+            ctx.violation(f, {"kind": "c07-huge", "body_len": len(case["body"]), "chunked": case["chunked"], "prog": case["prog"],
+                              "seg": case["seg"], "failure": f})
+            continue
         ctx.violation(f, {"kind": "c07", "stream": case["stream"].decode("latin-1"), "chunks": [c.decode("latin-1") for c in case["chunks"]],
                           "body": case["body"].decode("latin-1"), "prog": case["prog"], "failure": f})
     bad = ctx.correspond("body", lp.HEADER, model_cases, shard=60)
@@ -195,6 +238,15 @@ def run(ctx):
 
 
 def replay(rep):
+    if rep.get("kind") == "c07-huge":
+        import random
+        bad = 0
+        for seed in range(6):
+            case = gen_huge_case(random.Random(seed), rep["body_len"], rep["chunked"], [tuple(c) for c in rep["prog"]])
+            f = check_case(case)
+            print(seed, case["seg"], f)
+            bad += bool(f)
+        return 1 if bad else 0
     case = {"body": rep["body"].encode("latin-1"), "chunks": [c.encode("latin-1") for c in rep["chunks"]],
             "prog": [tuple(c) for c in rep["prog"]]}
     f = check_case(case)
